@@ -41,8 +41,14 @@ impl Float {
             return self.clone(); // Inf+.
         }
 
-        let target = self.clone();
-        let two = Self::from_u64(sem, 2);
+        // Run the iteration with a wider exponent range: the first steps
+        // compute values as large as 'self + 1', which overflows (to infinity,
+        // in the upward rounding modes and in small formats) when 'self' is
+        // close to the largest finite number. The precision and the rounding
+        // mode are unchanged, and the root always fits in the original range.
+        let wide = sem.increase_exponent(1);
+        let target = self.cast_with_rm(wide, RoundingMode::Zero);
+        let two = Self::from_u64(wide, 2);
 
         // Start the search at max(2, x).
         let mut x = if target < two { two } else { target.clone() };
@@ -54,7 +60,7 @@ impl Float {
             x = x.scale(-1, RoundingMode::NearestTiesToEven);
             // Stop when value did not change or regressed.
             if prev < x || x == prev {
-                return x;
+                return x.cast(sem);
             }
             prev = x.clone();
         }
